@@ -1,5 +1,7 @@
 /-
-C07: types and round trips (Props/C07.lean) and the units the statement names (Props/C07Clauses.lean).
+C07: types and round trips (Props/C07.lean), the units the statement names (Props/C07Clauses.lean) and the double leg of
+the integer round trip on bit patterns (Props/C07Float.lean).
 -/
 import Verif.Props.C07
 import Verif.Props.C07Clauses
+import Verif.Props.C07Float
